@@ -365,3 +365,52 @@ META = dict(
     not_covered=['planar_pixel_iterator / position_iterator / virtual locator navigation (template plumbing over the same one-line memunit functions; not extracted)',
                  'image_view accessor bodies are covered through their index expressions in the lemmas law_at_xy / law_end_minus_begin, not cut verbatim'],
 )
+
+# ------------------------------------------------------------------------------------------------ raw pixel pointers (pixel_iterator.hpp)
+PI = 'pixel_iterator.hpp'
+X_RAW = [
+    X('raw_step', PI, r'inline std::ptrdiff_t memunit_step\(P const\*\) \{', count=1),
+    X('raw_distance', PI, r'inline std::ptrdiff_t memunit_distance\(P const\* p1, P const\* p2\)\s*\{', count=1,
+      rules=[('R15.ptrdiff', r'gil_reinterpret_cast_c<unsigned char const\*>\(p2\) -\s*gil_reinterpret_cast_c<unsigned char const\*>\(p1\)', 'PTRDIFF((const unsigned char*)(p2), (const unsigned char*)(p1))', True)]),
+    X('raw_advance', PI, r'inline void memunit_advance\(P\* &p, std::ptrdiff_t diff\)\s*\{', count=1, rules=[('R9.ref', r'\bp\b', '(*p__)', True)]),
+    X('raw_advanced', PI, r'inline P\* memunit_advanced\(const P\* p, std::ptrdiff_t diff\)\s*\{', count=1),
+]
+RAW_C = r'''
+typedef struct { unsigned char c[PIXEL_SIZE]; } P;          /* a pixel of PIXEL_SIZE bytes (probe: sizeof of the instantiated pixel type) */
+unsigned char* g_buf; size_t g_n;
+#define OFFS(p) ((int64_t)__CPROVER_POINTER_OFFSET(p))
+#define INBUF(p) (__CPROVER_same_object((p), g_buf) && 0 <= OFFS(p) && OFFS(p) <= (int64_t)g_n)
+#define GHOST_SETUP() size_t n__; __CPROVER_assume(1 <= n__ && n__ <= ((size_t)1 << 40)); g_n = n__; g_buf = malloc(n__); __CPROVER_assume(g_buf != 0)
+ptrdiff_t raw_step(const P* p__unused)
+__CPROVER_ensures(RET == PIXEL_SIZE)                            /* memunit_step of a raw pixel pointer is sizeof(pixel) */
+__CPROVER_assigns()
+@@raw_step@@
+ptrdiff_t raw_distance(const P* p1, const P* p2)
+__CPROVER_requires(INBUF(p1) && INBUF(p2))
+__CPROVER_ensures(RET == OFFS(p2) - OFFS(p1))                   /* memunit_distance(i, j) is j.address - i.address (the address model of DESIGN 3.6) */
+__CPROVER_assigns()
+@@raw_distance@@
+void raw_advance(P** p__, ptrdiff_t diff)
+__CPROVER_requires(__CPROVER_is_fresh(p__, sizeof(*p__)) && INBUF(*p__) && -((int64_t)1 << 41) <= diff && diff <= ((int64_t)1 << 41) && 0 <= OFFS(*p__) + diff && OFFS(*p__) + diff <= (int64_t)g_n)
+__CPROVER_assigns(*p__)
+__CPROVER_ensures(INBUF(*p__) && OFFS(*p__) == __CPROVER_old(OFFS(*p__)) + diff)   /* memunit_advance(it, d): the address moves by exactly d memory units */
+@@raw_advance@@
+P* raw_advanced(const P* p, ptrdiff_t diff)
+__CPROVER_requires(INBUF(p) && -((int64_t)1 << 41) <= diff && diff <= ((int64_t)1 << 41) && 0 <= OFFS(p) + diff && OFFS(p) + diff <= (int64_t)g_n)
+__CPROVER_assigns()
+__CPROVER_ensures(INBUF(RET) && OFFS(RET) == OFFS(p) + diff)
+@@raw_advanced@@
+#ifndef VERIF_NATIVE
+void h_raw_step(void){ P* p; raw_step(p); __CPROVER_assert(0, "VACUITY"); }
+void h_raw_distance(void){ GHOST_SETUP(); P* a; P* b; raw_distance(a, b); __CPROVER_assert(0, "VACUITY"); }
+void h_raw_advance(void){ GHOST_SETUP(); P** pp; ptrdiff_t d; raw_advance(pp, d); __CPROVER_assert(0, "VACUITY"); }
+void h_raw_advanced(void){ GHOST_SETUP(); P* p; ptrdiff_t d; raw_advanced(p, d); __CPROVER_assert(0, "VACUITY"); }
+#endif
+'''
+for (n, cxx, tier) in [('rgb8', 'rgb8_pixel_t', 'quick'), ('gray16', 'gray16_pixel_t', 'quick'), ('rgba32f', 'rgba32f_pixel_t', 'thorough')]:
+    UNITS.append(Unit('rawptr.' + n, 'C03', RAW_C, extracts=X_RAW, insts=[(n, tier, {'T_PX': cxx})], probe_includes=['boost/gil.hpp'],
+                      probe='P_VAL("PIXEL_SIZE", (int)sizeof(PX));',
+                      checks=[Check('step', 'h_raw_step', enforce='raw_step'), Check('distance', 'h_raw_distance', enforce='raw_distance'),
+                              Check('advance', 'h_raw_advance', enforce='raw_advance'), Check('advanced', 'h_raw_advanced', enforce='raw_advanced')],
+                      preconditions=['raw pixel pointers inside one buffer of at most 2^40 bytes'],
+                      assumed=['gil_reinterpret_cast_c is a plain pointer cast']))
